@@ -67,6 +67,24 @@ func PatternStrings(n int) []string {
 	return out
 }
 
+// FlagGroupPatterns enumerates regexp flag-group syntax: (?F), (?F:a), a(?F)b, (?F)(?G) for every flag
+// string F, G over the flag alphabet up to length 2 (letters, digits, punctuation, blank, non-ASCII).
+func FlagGroupPatterns() []string {
+	alpha := []string{"i", "m", "s", "U", "-", "1", "0", "&", "+", " ", "@", "^", "P", "<", "=", "!", ":", "é", "z", "A", "{", "~"}
+	var flags []string
+	for _, a := range alpha {
+		flags = append(flags, a)
+		for _, b := range alpha {
+			flags = append(flags, a+b)
+		}
+	}
+	var out []string
+	for _, f := range flags {
+		out = append(out, "(?"+f+")", "(?"+f+":a)", "a(?"+f+")b", "(a)(?"+f+")", "(?"+f+")(?i)", "(?i)(?"+f+")", "^(?"+f+"a$")
+	}
+	return out
+}
+
 // StringBatch renders a program feeding each string constant to the regexp- and format-analysing
 // call shapes.
 func StringBatch(id string, strs []string) Prog {
@@ -85,7 +103,7 @@ func StringBatch(id string, strs []string) Prog {
 
 // Strings emits batches of size bs over PatternStrings(n).
 func Strings(n, bs int, emit func(Prog)) {
-	all := PatternStrings(n)
+	all := append(PatternStrings(n), FlagGroupPatterns()...)
 	for i := 0; i < len(all); i += bs {
 		j := i + bs
 		if j > len(all) {
